@@ -410,6 +410,8 @@ pub fn chain_case(ctx: &Ctx, c: &CCase, counting: bool) -> PResult {
 			diff: 1,
 			neg: Neg::None,
 			neg_pick: 0,
+			hdr: 0,
+			inp: 0,
 		})
 		.collect();
 	raws.extend(c.blocks.iter().cloned());
